@@ -241,6 +241,7 @@ type rHist struct {
 	listedSet map[string]bool // names that were newest non-ignored of their instance at a successful listing
 	lastDeliv map[int]string  // last name returned by Next per instance
 	oracle    []OracleFailure
+	blocked   bool
 	// the environment assumption of C16_once_exits was violated in this history
 	ownDisturbed bool
 	oracleN      int
@@ -304,15 +305,38 @@ func rcvEffLimit(c int) int {
 	return c
 }
 
+// call runs one call into the Receiver; a call that does not come back within 4 s (somebody keeps the receiver's
+// mutex) ends the history with a C17 report instead of hanging the harness
+func (h *rHist) call(what string, f func()) bool {
+	if h.blocked {
+		return false
+	}
+	ch := make(chan struct{})
+	go func() { f(); close(ch) }()
+	select {
+	case <-ch:
+		return true
+	case <-time.After(4 * time.Second):
+		h.blocked = true
+		h.bad = "Receiver." + what + " did not return within 4 s"
+		h.oracle = append(h.oracle, OracleFailure{Property: "C17", Clause: "receiver-call-blocks-forever", Desc: "Receiver." + what + " did not return within 4 s (storage calls all answered): a goroutine of the receiver keeps its mutex; the sync loop, which makes this call, would hang uncancellably",
+			Input: map[string]any{"own": h.own, "limits": []int{h.cdl, h.cdc}, "only_once": h.once, "history": append([]string{}, h.log...)}})
+		return false
+	}
+}
+
 func (h *rHist) observe() rObs {
 	var o rObs
-	for _, s := range h.r.SeenInstances() {
+	var seen []string
+	if !h.call("SeenInstances/HasSnapshots", func() { seen = h.r.SeenInstances(); o.Has = h.r.HasSnapshots() }) {
+		return o
+	}
+	for _, s := range seen {
 		var j int
 		fmt.Sscanf(s, "i%d", &j)
 		o.Seen = append(o.Seen, j)
 	}
 	sort.Ints(o.Seen)
-	o.Has = h.r.HasSnapshots()
 	h.st.mu.Lock()
 	for _, p := range h.st.pending {
 		if n, ok := h.names[p.name]; ok {
@@ -441,7 +465,8 @@ func (h *rHist) list(incl bool, fail bool) {
 		h.st.mu.Lock()
 		h.st.listErr = errors.New("injected list failure")
 		h.st.mu.Unlock()
-		err := h.r.RunOnce(h.ctx, incl)
+		var err error
+		h.call("RunOnce", func() { err = h.r.RunOnce(h.ctx, incl) })
 		h.st.mu.Lock()
 		h.st.listErr = nil
 		h.st.mu.Unlock()
@@ -461,12 +486,18 @@ func (h *rHist) list(incl bool, fail bool) {
 	for _, n := range newest {
 		h.listedSet[n.Full] = true
 	}
-	if err := h.r.RunOnce(h.ctx, incl); err != nil {
-		h.bad = "RunOnce failed: " + err.Error()
+	var lerr error
+	if !h.call("RunOnce", func() { lerr = h.r.RunOnce(h.ctx, incl) }) {
+		return
+	}
+	if lerr != nil {
+		h.bad = "RunOnce failed: " + lerr.Error()
 	}
 	if !h.started {
 		h.started = true
-		for _, inst := range h.r.SeenInstances() { // sync.go:121-129
+		var seen []string
+		h.call("SeenInstances", func() { seen = h.r.SeenInstances() })
+		for _, inst := range seen { // sync.go:121-129
 			h.set.Add(inst)
 		}
 	}
@@ -510,7 +541,11 @@ func (h *rHist) release(p *rcvLoadReq, wantOK bool) {
 }
 
 func (h *rHist) next() bool {
-	inst, upd := h.r.Next()
+	var inst string
+	var upd snapshot.Update
+	if !h.call("Next", func() { inst, upd = h.r.Next() }) {
+		return false
+	}
 	if inst == "" {
 		h.record("ANextNone", "Next() -> none")
 		return false
@@ -551,7 +586,10 @@ func (h *rHist) closeHeld() {
 func (h *rHist) bottom() {
 	// sync.go:255-268 and 329-339
 	if !h.set.Done() {
-		h.set.CleanDisappeared(h.r.SeenInstances())
+		var seen []string
+		if h.call("SeenInstances", func() { seen = h.r.SeenInstances() }) {
+			h.set.CleanDisappeared(seen)
+		}
 	}
 	if h.once && h.set.Done() {
 		h.exited = true
